@@ -480,7 +480,7 @@ pub fn run(rep: &Report) {
     rep.add_extra("operations_per_state", json!(n_ops));
     rep.add_extra("states", json!(n_states * 2));
     rep.add_extra("transitions", json!(n_states * 2 * n_ops));
-    let n = rep.tier.pick(60_000u64, 1_000_000);
+    let n = rep.tier.pick(60_000u64, 6_000_000);
     let (n4, f4) = names4();
     common::random_search(
         rep,
